@@ -6,7 +6,7 @@
    a change of behaviour does not. *)
 From Coq Require Import ZArith NArith List Bool Lia.
 Import ListNotations.
-Require Import PV.Gen.FormatRe PV.Gen.FormatAccept PV.Format.Percent.
+Require Import PV.Gen.FormatRe PV.Gen.FormatAccept PV.Gen.FormatLoops PV.Format.Percent PV.Format.StrFormat PV.Format.Typed.
 Open Scope N_scope.
 
 Ltac all_ifs :=
@@ -93,3 +93,83 @@ Proof.
   intros b nm cs. unfold spec_lint, gen_spec_lint, ch_pct, ch_b.
   destruct (c_type cs =? 37); destruct (c_type cs =? 98); destruct b; destruct (has_options cs); reflexivity.
 Qed.
+
+(* ================================================================ the loops (Gen/FormatLoops.v) *)
+Lemma gen_needs_mapping_is_model : forall specs, gen_needs_mapping specs = needs_mapping specs.
+Proof. reflexivity. Qed.
+
+Lemma gen_serial_of_is_model : forall cs, gen_serial_of cs = serial_of cs.
+Proof.
+  intros cs. unfold gen_serial_of, serial_of, ch_pct.
+  destruct (is_star (c_width cs)); destruct (is_star (c_prec cs)); destruct (c_type cs =? 37); reflexivity.
+Qed.
+
+Lemma gen_serial_specifiers_is_model : forall specs, gen_serial_specifiers specs = serial_specifiers specs.
+Proof.
+  intros specs. unfold gen_serial_specifiers, serial_specifiers.
+  induction specs as [|cs specs IH]; [reflexivity|]. simpl. rewrite gen_serial_of_is_model, IH. reflexivity.
+Qed.
+
+Lemma gen_lint_of_is_model : forall is_bytes nm cs, gen_lint_of is_bytes nm cs = spec_lint is_bytes nm cs.
+Proof.
+  intros b nm cs. rewrite gen_lint_is_model. unfold gen_lint_of, ch_pct. f_equal.
+  destruct nm; destruct (c_type cs =? 37); destruct (is_some (c_key cs)); destruct (is_star (c_prec cs));
+    destruct (is_star (c_width cs)); reflexivity.
+Qed.
+
+Lemma gen_pa_lint_is_model : forall is_bytes specs n, gen_pa_lint is_bytes specs n = pa_lint is_bytes specs n.
+Proof.
+  intros b specs n. unfold gen_pa_lint, pa_lint. rewrite gen_needs_mapping_is_model. f_equal.
+  generalize (needs_mapping specs) as nm. intros nm.
+  induction specs as [|cs l IH]; [reflexivity|].
+  simpl. rewrite gen_lint_of_is_model, IH. reflexivity.
+Qed.
+
+Lemma gen_zip_is_zip : forall is_bytes ss os, gen_zip (serial_accept is_bytes) ss os = zip_accept is_bytes ss os.
+Proof.
+  intros b ss. induction ss as [|s ss IH]; intros [|o os]; try reflexivity.
+  simpl. rewrite IH. reflexivity.
+Qed.
+
+(* accept_tuple_args_no_mvv: the arity tests and the zip loop, on literal arguments ... *)
+Lemma gen_accept_tail_is_model : forall is_bytes specs a,
+  accept_tuple is_bytes specs a =
+  gen_accept_tail (serial_accept is_bytes) (gen_serial_specifiers specs)
+    (match a with ATuple l => l | ADict _ => [OOther true] | AScalar o => [o] end).
+Proof.
+  intros b specs a. unfold accept_tuple, gen_accept_tail. rewrite gen_serial_specifiers_is_model, gen_zip_is_zip.
+  reflexivity.
+Qed.
+
+(* ... and on typed ones *)
+Lemma gen_zip_is_zip_u : forall is_bytes ss us, gen_zip (serial_accept_u is_bytes) ss us = zip_accept_u is_bytes ss us.
+Proof.
+  intros b ss. induction ss as [|s ss IH]; intros [|u us]; try reflexivity.
+  simpl. rewrite IH. reflexivity.
+Qed.
+
+Lemma gen_accept_tail_typed_is_model : forall is_bytes specs (l : list uval),
+  accept_tuple_typed is_bytes specs (TTuple l) =
+  gen_accept_tail (serial_accept_u is_bytes) (gen_serial_specifiers specs) l.
+Proof.
+  intros b specs l. unfold accept_tuple_typed, gen_accept_tail.
+  rewrite gen_serial_specifiers_is_model, gen_zip_is_zip_u. reflexivity.
+Qed.
+
+(* _str_format_impl: the field loop and the "not used" tests *)
+Lemma gen_field_loop_is_model : forall fields nargs kw st cur,
+  gen_field_loop fields nargs kw st cur = pa_field_loop fields nargs kw st cur.
+Proof.
+  induction fields as [|fd fs IH]; intros nargs kw st cur; [reflexivity|].
+  simpl. destruct (f_name fd) as [|i|s]; rewrite IH.
+  - destruct (pa_field_loop fs nargs kw AAuto (cur + 1)) as [[e ui] uk].
+    destruct st; simpl; rewrite <- ?app_assoc; reflexivity.
+  - destruct (pa_field_loop fs nargs kw AManual cur) as [[e ui] uk].
+    destruct st; simpl; rewrite <- ?app_assoc; reflexivity.
+  - destruct (pa_field_loop fs nargs kw st cur) as [[e ui] uk].
+    destruct (name_in s kw); simpl; reflexivity.
+Qed.
+
+Lemma gen_fields_check_is_model : forall fields nargs kw,
+  gen_fields_check fields nargs kw = pa_fields_check fields nargs kw.
+Proof. intros. unfold gen_fields_check, pa_fields_check. rewrite gen_field_loop_is_model. reflexivity. Qed.
